@@ -3,6 +3,7 @@ import StubGen.Driver.Json
 import StubGen.Driver.ApiJson
 import StubGen.Model.Naming
 import StubGen.Model.Types
+import StubGen.Model.Discovery
 import StubGen.Spec.Lex
 
 open Lean StubGen StubGen.Driver
@@ -24,6 +25,18 @@ def handle (j : Json) : Json :=
     | .ok t => Json.mkObj [("ok", .bool true), ("todict", pyToJson t.toDict), ("hash", .str t.hashKey),
                            ("refl", .bool (t.pyEq t))]
   | "gen" => runGen j
+  | "discover" =>
+    let parts := fun (x : Json) => match x with
+      | .arr a => a.toList.filterMap fun y => match y with | .str s => some s | _ => none
+      | _ => []
+    let files := (getArr j "files").map parts
+    match discoverFrom (parts (getJson j "root")) files (getBool j "test_run") with
+    | .error e => Json.mkObj [("ok", .bool false), ("err", .str e.name)]
+    | .ok (root, d) =>
+      Json.mkObj [("ok", .bool true), ("root", .str (pathStr root)),
+        ("walkable", .arr ((d.walkable.map pathStr).map Json.str).toArray),
+        ("packages", .arr ((d.packages.map pathStr).map Json.str).toArray),
+        ("selected", .arr ((selectAsts (getStrs j "graph") d).map Json.str).toArray)]
   | "eq" =>
     match AType.fromDict (jsonToPy (getJson j "a")), AType.fromDict (jsonToPy (getJson j "b")) with
     | .ok a, .ok b => Json.mkObj [("ok", .bool true), ("eq", .bool (a.pyEq b)), ("eqr", .bool (b.pyEq a)),
